@@ -17,7 +17,7 @@ TRUSTED = (
 CLAIMS = {
     "C01": dict(
         technique="static analysis: who-may-write (encapsulation) check over the resolved program + paired-update obligation walk over every path of every writer method",
-        text="Decides the inductive step of the incidence invariant by static analysis: only methods of the core classes write the four tables (R-ENC), and on every normal and exceptional exit of every writer method of Hypergraph each edge-side gain/loss is paired with the node-side one, each new key has its attribute record, and every member is a registered node (R-ATTR/R-INC/R-EXISTS/R-EXIT/R-EXC/R-ONCE). Which edit is performed is not decided (C05).",
+        text="Decides the inductive step of the incidence invariant by static analysis: only methods of the core classes write the four tables (R-ENC), and on every normal and exceptional exit of every writer method of Hypergraph each edge-side gain/loss is paired with the node-side one, each new key has its attribute record, every member is a registered node, and a store never replaces an entry whose key may already exist (three-valued key presence) (R-ATTR/R-INC/R-EXISTS/R-EXIT/R-EXC/R-ONCE); the per-site counter rules of C04 are checked for this class as the premise that automatic keys are new. Which edit is performed is not decided (C05).",
         ref="3 C01",
     ),
     "C02": dict(
@@ -36,8 +36,8 @@ CLAIMS = {
         ref="3 C04",
     ),
     "C05": dict(
-        technique="static analysis: raise-site classification, effect footprint of swap/shuffle, dropped-parameter rule for wrappers",
-        text="Narrow: decides (a) that edits rejected for a missing/invalid ID raise the library's own error type at every explicit raise and every caller-keyed plain-container access, (b) that double_edge_swap and random_edge_shuffle insert/delete no key and touch no attribute or counter, (c) that aliases and thin wrappers forward every parameter. Equality with a reference model after edit sequences is NOT decided.",
+        technique="static analysis: raise-site classification, validate-before-write ordering at every explicit rejection, effect footprint of swap/shuffle, dropped-parameter rule for wrappers",
+        text="Narrow: decides (a) that edits rejected for a missing/invalid ID raise the library's own error type at every explicit raise and every caller-keyed plain-container access, (b) that double_edge_swap and random_edge_shuffle insert/delete no key and touch no attribute or counter, (c) that aliases and thin wrappers forward every parameter, (d) that every explicit rejection (raise statement) in a mutator is reached before any table write of the rejected item. Equality with a reference model after edit sequences is NOT decided.",
         ref="3 C05",
     ),
     "C06": dict(
@@ -47,7 +47,7 @@ CLAIMS = {
     ),
     "C07": dict(
         technique="static analysis: escape/alias analysis with copy barriers at every network-to-network transfer, pickle state-table agreement",
-        text="Decides independence and completeness of transferred state for copy(), pickle and the network-to-network constructor branches: every flow from the source network into the new one passes a copy barrier (deep for attributes in copy()), getstate/setstate/__init__ agree on the attribute set, the counter is copied. Equality of copied values is not decided.",
+        text="Decides independence and completeness of transferred state for copy(), pickle and the network-to-network constructor branches: every flow from the source network into the new one passes a copy barrier (deep for attributes in copy(); member tables filled directly must be fresh down to the member sets), getstate/setstate/__init__ agree on the attribute set, the counter is copied. Equality of copied values is not decided.",
         ref="3 C07",
     ),
     "C08": dict(
@@ -57,27 +57,27 @@ CLAIMS = {
     ),
     "C09": dict(
         technique="static analysis: ID/position kind inference (abstract interpretation) over every subscript of the algorithm, linalg and stats modules",
-        text="Decides the addressing discipline behind relabelling invariance: a label is never used as a position in a positional container nor a position as a label in an ID-keyed map. Numerical invariance itself is not decided.",
+        text="Decides the addressing discipline behind relabelling invariance: a label is never used as a position in a positional container nor a position as a label in an ID-keyed map, and every matrix builder numbers its rows/columns in view order (callers use matrices without their index maps). Numerical invariance itself is not decided.",
         ref="3 C09",
     ),
     "C10": dict(
         technique="static analysis: writer/reader key-table extraction and comparison, sibling-branch footprint cross-check, role-by-test rule",
-        text="Narrow: decides that the dict-format writers and readers agree on keys and enumerations (incl. direction literals), that all class-to-class converter branches transfer nodes, edges and network attributes, and that bipartite endpoints are classified by a test, not by position. Round-trip equality of values is NOT decided.",
+        text="Narrow: decides that the dict-format writers and readers agree on keys and enumerations (incl. direction literals), that all class-to-class converter branches transfer nodes, edges and network attributes, that bipartite endpoints are classified by a test, not by position, and that the direction of every membership read from a DiGraph is taken from the orientation of the arc being enumerated (the writer uses the opposite convention consistently). Round-trip equality of values is NOT decided.",
         ref="3 C10",
     ),
     "C11": dict(
         technique="static analysis: delegation/forwarding checks on every reader/writer, delimiter symmetry, array-rank fact propagation, serialise-before-open dominance",
-        text="Narrow: decides that each read_*/write_* pair goes through the paired converters, forwards every parameter, joins and splits on the received delimiter, forces text matrices two-dimensional, and serialises before opening the file. Round-trip equality of values is NOT decided.",
+        text="Narrow: decides that each read_*/write_* pair goes through the paired converters, forwards every parameter, joins and splits on the received delimiter, forces text matrices two-dimensional, serialises before opening the file, casts node and edge fields of the text parsers with their own type from their own column (followed through helpers), and keys any conversion memo by everything the stored value depends on. Round-trip equality of values is NOT decided.",
         ref="3 C11",
     ),
     "C12": dict(
         technique="static analysis: ID/position kind inference on matrix builders, index-map provenance, definite assignment in degenerate branches",
-        text="Narrow: decides that rows/columns are addressed through index maps (never labels), that returned maps derive from the map that placed the entries, and that degenerate-shape branches assign their result on every path. Numerical equality with textbook definitions is NOT decided.",
+        text="Narrow: decides that rows/columns are addressed through index maps (never labels), that returned maps derive from the map that placed the entries and that this map numbers a view in view order, that degenerate-shape branches assign their result on every path, and that the sparse and dense constructions of one builder use the same element type. Numerical equality with textbook definitions is NOT decided.",
         ref="3 C12",
     ),
     "C13": dict(
         technique="static analysis: abstract interpretation of the boundary sign exponent in the parity domain, face-loop shape checks",
-        text="Narrow: decides that the sign exponent stored by boundary_matrix has the textbook parity (up to an order-only sign), that the reference orientation is fixed before faces are enumerated, that every face of the combinations enumeration is stored and looked up by member set, and that hodge_laplacian composes boundary matrices built with the same orientations. The identity on concrete complexes is NOT decided.",
+        text="Narrow: decides that the sign exponent stored by boundary_matrix has the textbook parity (up to an order-only sign), that the reference orientation is fixed before faces are enumerated, that every face of the combinations enumeration is stored and looked up by member set and addressed by its simplex ID (kind inference), and that hodge_laplacian composes boundary matrices built with the same orientations. The identity on concrete complexes is NOT decided.",
         ref="3 C13",
     ),
     "C16": dict(
@@ -97,12 +97,12 @@ CLAIMS = {
     ),
     "C19": dict(
         technique="static analysis: step identification by effect footprint and ordering/guard checks on the CFG of the cleanup methods and convert_labels_to_integers",
-        text="Narrow: decides the sequencing of cleanup (relabelling last, singleton removal before isolate removal), one flag per step with documented polarity, copy semantics of in_place, and that relabelling records old labels after re-insertion from zip(view, range). Set-theoretic results of derived networks are NOT decided.",
+        text="Narrow: decides the sequencing of cleanup (relabelling last, singleton removal before isolate removal), one flag per step with documented polarity, copy semantics of in_place, and that relabelling records old labels after re-insertion from zip(view, range) (or puts them into the re-inserted attribute dicts with the label applied last). Set-theoretic results of derived networks are NOT decided.",
         ref="3 C19",
     ),
     "C20": dict(
-        technique="static analysis: ID/position kind inference over layout and drawing code, key provenance of layout dicts",
-        text="Narrow: decides that positions are addressed by label and arrays by position in the layout/drawing functions the property names, and that every layout's keys come from the node view. Rendered geometry is NOT decided.",
+        technique="static analysis: ID/position kind inference over layout and drawing code, key provenance of layout dicts, guarded-range-division lint",
+        text="Narrow: decides that positions are addressed by label and arrays by position in the layout/drawing functions the property names, that every layout's keys come from the node view (edge positions from the edge view; dicts filled in loops are checked store by store), and that a rescaling that divides by a max-min range handles the constant input. Rendered geometry is NOT decided.",
         ref="3 C20",
     ),
 }
